@@ -109,7 +109,16 @@ def go_build(name, tags="verif", cgo=False, race=False):
     if race:
         cmd.append("-race")
     cmd.append("./cmd/" + name)
-    run(cmd, cwd=HARNESS, env=goenv(cgo=cgo or race), timeout=1800)
+    for attempt in (1, 2, 3):
+        p = run(cmd, cwd=HARNESS, env=goenv(cgo=cgo or race), timeout=1800, check=False)
+        if p.returncode == 0:
+            return out
+        # a concurrent `go clean -cache` / cache trim removes entries under our feet ("open .../go-build/..:
+        # no such file or directory"): that is not a property of the tree under test, build again
+        if attempt < 3 and "go-build" in (p.stdout or "") and "no such file or directory" in (p.stdout or ""):
+            log("go build hit a trimmed build cache, retrying (%d)" % attempt)
+            continue
+        raise HarnessError("command failed rc=%d: %s\n%s" % (p.returncode, " ".join(cmd[:8]), (p.stdout or "")[-4000:]))
     return out
 
 
@@ -139,7 +148,14 @@ def go_test_overlay(pkg_rel, run_re="^TestVerif", env_extra=None, timeout=1800, 
     cmd += (extra_args or [])
     cmd.append("./" + pkg_rel)
     try:
-        p = run(cmd, cwd=module_dir or REPO, env=env, timeout=timeout + 60, check=False)
+        for attempt in (1, 2, 3):
+            p = run(cmd, cwd=module_dir or REPO, env=env, timeout=timeout + 60, check=False)
+            # same transient as in go_build: the build cache was trimmed by a concurrent process
+            if p.returncode != 0 and attempt < 3 and "go-build" in (p.stdout or "") and "no such file or directory" in (p.stdout or "") \
+                    and "[build failed]" in (p.stdout or ""):
+                log("go test hit a trimmed build cache, retrying (%d)" % attempt)
+                continue
+            break
     finally:
         try:
             os.unlink(ov)
